@@ -2125,6 +2125,9 @@ def _md_modified(ex, args, f):
 @intr("<_ as TryInto>::try_into")
 def _systemtime_try_into(ex, args, f, _prev=I["<_ as TryInto>::try_into"]):
     v = deref_all(ex, args[0])
+    tm = re.search(r"as (?:std::convert::)?TryInto<(?:\w+::)*(\w+)>>::try_into$", f.strip())
+    if isinstance(v, Adt) and tm and v.ty == tm.group(1):
+        return ok(v)                                   # reflexive: TryFrom<T> for T is infallible
     if isinstance(v, Adt) and v.ty == "SystemTimeV":
         # the crate's TryFrom<SystemTime> for Timestamp: whole seconds since the epoch, Overflow beyond u32 (decided separately under C20)
         secs = v.fields[0]
